@@ -470,7 +470,7 @@ void ICMPv6::prefix_info(prefix_info_type info) {
     stream.write<uint8_t>((info.L << 7) | (info.A << 6));
     stream.write_be(info.valid_lifetime);
     stream.write_be(info.preferred_lifetime);
-    stream.write<uint32_t>(0);
+    stream.write_be(info.reserved2);
     stream.write(info.prefix);
     add_option(
         option(PREFIX_INFO, buffer, buffer + sizeof(buffer))
